@@ -82,6 +82,23 @@ def object_case(g, idx):
 
 
 def run_shard(spec):
+    if spec.get("part") == "same-process":
+        # several design runs, each with its own manager, one after the other in ONE process (the pool runs every scenario in a
+        # process of its own): every report must describe its own run only
+        from vf.common import rng
+        from vf.gen import phys as GP
+        from vf.scenario import run_scenario
+
+        g = rng(spec["seed"], PROP + "-same-process", spec["shard"])
+        recs = []
+        for k in range(spec["n"]):
+            method = ["NEARSQUARE", "RECTANGLE", "BIRECTANGLE", "BIZONEDRECTANGLE"][(spec["shard"] + k) % 4]
+            cfg = PC.make_cfg(g, method, GP.PIPES[(spec["shard"] + k) % 4], ["BOREHOLE", "SYSTEM"][k % 2], ["interior", "small", "large"][k % 3], True, 36)
+            cfg["simulation"]["num_months"] = int(g.choice([12, 24]))
+            cfg["loads_desc"]["scale"] = PC.scale_loads_for(cfg, cfg["_class"], g)
+            cfg["_class"] = "same-process-" + str(k)
+            recs.append(run_scenario(cfg))
+        return {"kind": "same-process", "records": recs}
     if spec.get("part") == "objects":
         from vf.common import rng
 
@@ -161,7 +178,8 @@ def check(tier, seed):
         "scenario pool as C01; every run that returned a design (through any path, escapes included) is judged. non-trivial = judged run; "
         "distinct by scenario inputs; evidence lists the outcome classes seen (bracketed, clamped-min, clamped-max, unmet-continued). Object level: real "
         "search objects on 1-6 borehole fields, sequences of simulate()/size() with the HYBRID and the HOURLY method (both occur in every sequence), a "
-        "report built after every step with the method of that step and compared with the same call on a deep copy."
+        "report built after every step with the method of that step and compared with the same call on a deep copy. Same process: three designs with "
+        "their own managers one after the other in one process, each judged as above plus: rows of the reported search log = candidates this run evaluated."
     )
     for p in problems:
         rep.inconclusive.append("scenario failed in the harness: " + p)
@@ -189,6 +207,28 @@ def check(tier, seed):
             rep.nontrivial(["object"] + c)
         for v in r["viol"]:
             rep.violate(v["mechanism"], v["message"], {"case": v["case"]})
+    # several designs in one process
+    n_sp = {"quick": 3, "thorough": 5}[tier]
+    for r in run_pool("vf.props.C12", [{"part": "same-process", "seed": seed, "shard": s_, "n": n_sp} for s_ in range({"quick": 6, "thorough": 16}[tier])], timeout=5400):
+        if "_harness_error" in r:
+            rep.inconclusive.append("same-process shard failed: " + r["_harness_error"][:300])
+            continue
+        for pos, rec in enumerate(r["records"]):
+            if "harness_error" in rec:
+                rep.inconclusive.append("same-process scenario failed in the harness: " + rec["harness_error"][:200])
+                continue
+            rep.evaluations += 1
+            if rec["outcome"] != "design" or "summary" not in rec:
+                continue
+            judge_record(rec, rep)
+            rep.count("reports_of_runs_that_followed_another_run_in_the_same_process", 1 if pos > 0 else 0)
+            n_eval = rec["hits"].get("calculate_excess", 0) + rec["hits"].get("rowwise_calculate_excess", 0)
+            n_rows = len(rec["summary"]["search_log_rows"])
+            if n_rows != n_eval:
+                rep.violate("search-log-rows-not-those-of-this-run", f"{PC.method_of(rec)} (run {pos + 1} of its process): the reported search log has {n_rows} rows, this run evaluated {n_eval} candidates", {"scenario": rec["cfg"], "position_in_process": pos})
+            rep.nontrivial(["same-process", pos, rec["key"]])
+    if rep.extra.get("reports_of_runs_that_followed_another_run_in_the_same_process", 0) == 0:
+        rep.inconclusive.append("no report of a run that followed another run in the same process")
     if rep.extra.get("object_level_reports_after_mixed_method_sequences", 0) == 0:
         rep.inconclusive.append("no object-level report was built")
     need = {"bracketed": 1, "clamped-min": 1}
